@@ -32,6 +32,8 @@ structure Snap where
   exact : List (Bytes × String)             -- per key: the reply required (C07: the value before the pass)
   label : String
   durable : List (Bytes × Store.Pos × Nat × String) := []   -- the acknowledged writes whose record lies completely in the surviving bytes
+  life2 : Bool := false     -- taken in the second process life: version numbers are not compared (whether a delete marker's
+                            -- version survives the first recovery depends on which index files the kill left — C02's proviso)
 
 structure St where
   cfg : Cfg := {}
@@ -47,6 +49,7 @@ structure St where
   -- engine crash
   writes : List (Bytes × Store.Pos × Nat × String) := []  -- acknowledged writes in order: key, position, on-disk size, what a get returns afterwards
   snaps : List (Nat × Snap) := []
+  inLife2 : Bool := false
   gcSpec : Option Spec.KV := none                          -- the reference map when the GC pass began (C07)
   gcPre : Option (Store.Bucket × Nat × Nat) := none        -- the bucket model before the pass, and the resolved range
   groups : List (List Bytes) := []                         -- mix collide (C13): keys forced onto one key hash; the model is not compared
@@ -573,7 +576,7 @@ def run (lines : Array String) : IO Report := do
           | _, _ => pure ()
         let sn : Snap := { inGC := inGC, torn := b.tornAt cut, recovered := b.recover hash st.scfg cut present,
                            allowed := allowed, exact := exact, label := " ".intercalate (opts.filter (fun o => !o.startsWith "files=")),
-                           durable := st.writes.filter fun w => decide (w.2.1.off + w.2.2.1 ≤ cut w.2.1.chunk) }
+                           durable := st.writes.filter (fun w => decide (w.2.1.off + w.2.2.1 ≤ cut w.2.1.chunk)), life2 := st.inLife2 }
         st := { st with snaps := (n.toNat!, sn) :: st.snaps }
         caseNontrivial := true
     | ["crash", n] =>
@@ -645,7 +648,7 @@ def run (lines : Array String) : IO Report := do
             let dv : List (Spec.Key × Int) := keys.foldl (fun m k => match AMap.get sp k with
               | some e => AMap.set m k e.ver
               | none => m) []
-            st := { st with buckets := #[b], spec := sp, inexact := [], dataVer := dv, writes := sn.durable, gcSpec := none, lastFiles := "" }
+            st := { st with buckets := #[b], spec := sp, inexact := keys, dataVer := dv, writes := sn.durable, gcSpec := none, lastFiles := "", inLife2 := true }
     | ["clist", n, pfx] =>
         match st.snaps.find? (fun p => p.1 == n.toNat!) with
         | none => diff rep ln "driver" s!"clist of unknown snapshot {n}"
@@ -665,12 +668,15 @@ def run (lines : Array String) : IO Report := do
                   if lines.any (fun l => l.contains '/') then
                     diff rep ln "oracle" s!"case={cid} key=C08/node-summary-after-kill list {pfx} after a kill at ({sn.label}): content says items, impl lists nodes {o.take 120}"
                   else
-                    let live := (es.filter (fun e => e.ver > 0)).map fun e => s!"{hex16 e.khash} {e.vhash} {e.ver}"
+                    let noVer := fun (l : String) => if sn.life2 then " ".intercalate ((l.splitOn " ").dropLast) else l
+                    let live := (es.filter (fun e => e.ver > 0)).map fun e => noVer s!"{hex16 e.khash} {e.vhash} {e.ver}"
+                    let tombLine := fun (l : String) => (l.splitOn " ").getLast?.map (·.startsWith "-") == some true
+                    let lines := lines.filter (fun l => !(sn.life2 && tombLine l)) |>.map noVer
                     for l in live do
                       if !(lines.contains l) then diff rep ln "oracle" s!"case={cid} key=C08/missing-live-item-after-kill list {pfx} after a kill at ({sn.label}): live entry {l} not listed"
                     for l in lines do
                       -- a listed line is a live entry, or a tombstone (negative version) the tree still carries
-                      if !(live.contains l) && !((l.splitOn " ").getLast?.map (·.startsWith "-") == some true) then
+                      if !(live.contains l) && !(tombLine l) then
                         diff rep ln "oracle" s!"case={cid} key=C08/spurious-item-after-kill list {pfx} after a kill at ({sn.label}): listed entry {l} is not a live key of the recovered content"
               | .none => pure ()
             ok rep
